@@ -21,10 +21,12 @@ def handle (line : String) : String :=
   | "chain" :: rest => chainLine (" ".intercalate rest)
   | "nf" :: rest => nfLine (" ".intercalate rest)
   | "ucc" :: rest => uccLine (" ".intercalate rest)
+  | "c06witness" :: rest => witnessLine (" ".intercalate rest)
   | "xform" :: rest => xformLine (" ".intercalate rest)
   | "fromast" :: rest => fromastLine (" ".intercalate rest)
   | "c16pred" :: rest => c16predLine (" ".intercalate rest)
   | "c16witness" :: rest => c16witnessLine (" ".intercalate rest)
+  | "bstr" :: rest => bstrLine (" ".intercalate rest)
   | _ => "bad-request"
 
 /-- verbs that need the driver's schema store (IO) -/
